@@ -123,12 +123,13 @@ static void run_case(int algo, bool bounded, Prob& p, int start_kind, int settin
   m.set_max_iterations(maxit); m.set_converged_gradient_norm(thr);
   if ((setting / 6) % 2 == 1) m.set_max_step_size(0.5);
   int eus = (setting / 12) % 3 - 1; if (eus >= 0) m.ensure_updated_state(eus);
+  int mls = (setting / 36) % 2 == 1 ? 2 : 10; m.set_max_line_search_iterations(mls);   // 2: the line search runs out of iterations
   // projected start, for "does not exceed the starting cost"
   Vector xs(n); xs = x; if (bounded) for (int i = 0; i < n; ++i) xs(i) = std::max(p.lo(i), std::min(x(i), p.hi(i)));
   double start_cost_true = p.cost_only(xs);
   p.record = true; p.evlog.clear();
   {
-    std::printf("P %d %d %c %d %d %.17g %.17g %d |", algo, (int)bounded, p.kind, n, maxit, thr, ((setting / 6) % 2 == 1) ? 0.5 : -1.0, eus);
+    std::printf("P %d %d %c %d %d %.17g %.17g %d %d |", algo, (int)bounded, p.kind, n, maxit, thr, ((setting / 6) % 2 == 1) ? 0.5 : -1.0, eus, mls);
     for (int i = 0; i < n; ++i) for (int j = 0; j < n; ++j) std::printf(" %.17g", p.A(i, j));
     std::printf(" |"); for (int i = 0; i < n; ++i) std::printf(" %.17g", p.b(i));
     std::printf(" |"); for (int i = 0; i < n; ++i) std::printf(" %.17g", p.d(i));
@@ -187,7 +188,7 @@ int main(int argc, char** argv) {
     for (int algo = 0; algo < 5; ++algo) for (int bounded = 0; bounded < 2; ++bounded) {
       if (!bounded && v > 0) continue;                   // the unbounded run does not depend on the box variant
       for (int sk = 0; sk < (bounded ? (p.label == 't' ? 5 : 4) : 1); ++sk) {
-        int setting = (caseid * 7 + algo * 3 + sk * 5) % 36;
+        int setting = (caseid * 7 + algo * 3 + sk * 5) % 48;   // 36..47: as 0..11 with a line-search limit of 2
         run_case(algo, bounded, p, sk, setting, caseid);
       }
     }
